@@ -14,7 +14,10 @@ Inductive event :=
 | EByzVote (i : rid) (h : hash)
 | EStop (r : rid) (v : view)
 | EVote (r : rid) (h : hash) (obs_lock : option hash)
-| ECommit (r : rid) (h1 : hash) (obs : list hash).
+| ECommit (r : rid) (h1 : hash) (obs : list hash)
+(* several proposals were processed in one stimulus: the QC blocks of the voted blocks, in order,
+   and all blocks committed in that stimulus *)
+| ECommits (r : rid) (cands : list hash) (obs : list hash).
 
 Fixpoint nodupb (l : list N) : bool :=
   match l with [] => true | x :: r => negb (memb x r) && nodupb r end.
@@ -114,6 +117,55 @@ Section Exec.
 
   Definition fuel_of (s : state) : nat := S (length (blocks s)).
 
+  Fixpoint strip_prefix (p l : list N) : option (list N) :=
+    match p, l with
+    | [], _ => Some l
+    | x :: p', y :: l' => if N.eqb x y then strip_prefix p' l' else None
+    | _ :: _, [] => None
+    end.
+
+  (* the commit triggered by processing a block whose QC certifies h1, if the commit rule fires
+     and the walk is a non-empty prefix of the observed commits *)
+  Definition try_commit (s : state) (r : rid) (h1 : hash) (obs : list hash) : option (state * list hash) :=
+    match U s h1 with
+    | None => None
+    | Some b1 =>
+        match U s (b_qc b1) with
+        | None => None
+        | Some b2 =>
+            match U s (b_qc b2) with
+            | None => None
+            | Some b3 =>
+                if honest r && N.eqb (b_hash b1) h1 && certb s (b_hash b1) && commit_ruleb b3 b2 b1
+                then match segb (fuel_of s) (U s) b3 (b_view (head (loc s r))) with
+                     | Some (x :: l') =>
+                         let l := x :: l' in
+                         match strip_prefix (map b_hash l) obs with
+                         | Some rest =>
+                             Some (set_loc s r
+                                    {| lastVoted := lastVoted (loc s r); lock := lock (loc s r);
+                                       head := if b_view (head (loc s r)) <? b_view b3 then b3
+                                               else head (loc s r);
+                                       log := log (loc s r) ++ l |}, rest)
+                         | None => None
+                         end
+                     | _ => None
+                     end
+                else None
+            end
+        end
+    end.
+
+  Fixpoint commits_fold (s : state) (r : rid) (cands : list hash) (obs : list hash) : option state :=
+    match cands with
+    | [] => match obs with [] => Some s | _ => None end
+    | h1 :: rest =>
+        match try_commit s r h1 obs with
+        | Some (s', obs') => commits_fold s' r rest obs'
+        | None => commits_fold s r rest obs
+        end
+    end.
+
   Definition gstep (s : state) (e : event) : option state :=
     match e with
     | EAddBlock b =>
@@ -174,6 +226,7 @@ Section Exec.
                 end
             end
         end
+    | ECommits r cands obs => commits_fold s r cands obs
     end.
 
   (* index (0-based) of the first rejected event, or None if the whole history is accepted *)
